@@ -24,6 +24,7 @@ from .events import (
     Timeout,
     URGENT,
     NORMAL,
+    exclusive_copy,
 )
 
 
@@ -228,9 +229,7 @@ class Environment:
             # environment.
             # Create a copy of the failure exception with a new traceback.
             # Multiple process can wait for the same failed event.
-            exc = type(event._value)(*event._value.args)
-            exc.__cause__ = event._value
-            raise exc
+            raise exclusive_copy(event._value)
 
     def run(
         self, until: Optional[Union[SimTime, Event]] = None
